@@ -127,6 +127,10 @@ func doWalk(t *jet.Template) *walkResp {
 			}
 		case g != w:
 			r.Problems = append(r.Problems, fmt.Sprintf("%s %q occurs %d time(s) in the tree but was visited %d time(s)", kindName(n), clip(n.String()), w, g))
+		case g > 1:
+			// the same node object hangs under several parents: what the parser hands out is not a tree, and the
+			// visitor is given one node more than once
+			r.Problems = append(r.Problems, fmt.Sprintf("%s %q was visited %d times (one node object reachable from %d places)", kindName(n), clip(n.String()), g, w))
 		}
 	}
 	for n, g := range got {
